@@ -226,6 +226,7 @@ def handle (ws : List String) : String :=
   | ["asi", nlbits, stmts, _src, toks] => handleAsi nlbits stmts toks
   | ["noin", form, tree, _src, toks] => handleNoIn form tree toks
   | ["asire", nlbits, stmts, toks, _src] => handleAsiRe nlbits stmts toks
+  | "obj" :: rest => Lit.handleObj rest
   | "num" :: rest => Lit.handleNum rest
   | "str" :: rest => Lit.handleStr rest
   | _ => "bad-op bad-op -"
